@@ -73,6 +73,11 @@ def colour_menu(O, S, full):
         for sub in itertools.combinations(sn, k):
             out.append(({}, {v: {"color": COLORS[(i + 1) % 3]} for i, v in enumerate(sub)}))
     out.append(({O.root: {"color": COLORS[0]}}, {S.root: {"color": COLORS[2]}}))
+    # a parent and its child explicitly given the SAME colour, in both trees (letters-only hex value)
+    if O.internal:
+        a = O.internal[0]
+        out.append(({a: {"color": "ABCDEF"}, O.children[a][0]: {"color": "ABCDEF"}},
+                    ({S.root: {"color": "ABCDEF"}, S.children[S.root][-1]: {"color": "ABCDEF"}} if S.children[S.root] else {})))
     if not full and len(O.internal) >= 2:
         a, b = O.internal[0], O.internal[1]
         out.append(({a: {"color": COLORS[0]}, b: {"color": COLORS[1]}}, {}))   # nested colours
@@ -197,6 +202,12 @@ def build_objects(spec):
                 input=inp, object_species={onode[v]: snode[s] for v, s in m.items()},
                 syntenies={onode[v]: (list(x) if fam == "ordered" else set(x)) for v, x in lab.items()},
                 ordered=(fam == "ordered")))
+            if fam == "unordered":
+                # the same unordered solution with its family sets written as LISTS in descending order (the API accepts
+                # any iterable; "unordered" says how they are to be read, not how they were typed)
+                objs.append(SuperReconciliationOutput(
+                    input=inp, object_species={onode[v]: snode[s] for v, s in m.items()},
+                    syntenies={onode[v]: sorted(x, reverse=True) for v, x in lab.items()}, ordered=False))
     else:
         algo = spec["algorithm"]
         if algo == "lca":
